@@ -86,6 +86,7 @@ pub fn case_bytes(case: &Value) -> Vec<u8> {
     let m = if case["memx"].is_object() { &case["memx"] } else { &case["mem"] };
     match m {
         Value::Array(a) => a.iter().map(|x| x.as_u64().unwrap() as u8).collect(),
+        Value::Object(o) if o.contains_key("huge") => Vec::new(),
         Value::Object(o) => {
             let len = o["len"].as_u64().unwrap() as usize;
             let fill = o.get("fill").and_then(|x| x.as_u64()).unwrap_or(0) as u8;
